@@ -30,6 +30,13 @@ class FaultRule(memrules.MemRule):
         memrules.MemRule.__init__(self)
         self.root_families = {}
 
+    def keep_event(self, ev):
+        # a failed allocation is part of the state: a path that carries on after one must not be merged into its fault-free twin
+        return ev[0] == 'allocfail'
+
+    def event_sig(self, evs):
+        return ('failed',) if evs else ()
+
 
 def mem_entry(chk, prog, env, model, unit, entry, mkstate, hooks=None, rule=None, label=None):
     prog.func(unit, entry)
@@ -85,6 +92,8 @@ def check_constructors(chk, prog, env, model):
 def check_verify_generate(chk, prog, env, model):
     n = 0
     bad = 0
+    n_saf = 0
+    bad_saf = 0
     sites = set()
     for variant, entry in (('checker', 'jwt_checker_verify'), ('builder', 'jwt_builder_generate')):
         unit = T.VARIANT_UNIT[variant]
@@ -103,6 +112,26 @@ def check_verify_generate(chk, prog, env, model):
             n += a
             bad += b
             sites |= fails
+            # success after a failed allocation: every routed allocation on these paths produces a part of the result (the private
+            # copy, the decoded segments, the JSON trees, the time claims, the dumped and encoded text): a path on which one of
+            # them failed and the operation still reports success delivers a result without that part
+            for s, rv in res:
+                af = [e for e in s.trace if e[0] == 'allocfail']
+                if not af:
+                    continue
+                n_saf += 1
+                if variant == 'builder':
+                    success = not (rv is NULL or (isinstance(rv, Int) and rv.v == 0))
+                else:
+                    success = (isinstance(rv, Int) and rv.v == 0) or isinstance(rv, Term)
+                if success:
+                    bad_saf += 1
+                    fn_, (ff, ll) = af[0][1], af[0][2]
+                    chk.add(Finding('C17.success-after-failure', unit, entry, 'after[%s@%s]' % (fn_, (ff or '').split('/')[-1]),
+                                    '%s reports success on a path where %s at %s:%s failed: the result is delivered without what that '
+                                    'allocation was for (silently degraded)' % (entry, fn_, ff, ll), line=ll))
+    chk.rule('C17.success-after-failure', 'verify / generate never report success on a path on which a routed allocation failed',
+             n_saf, bad_saf, floor=200)
     # the claim getters under allocation failure
     def mkc(st, rule, it):
         jwt = ('obj', 'jwt')
